@@ -240,11 +240,20 @@ func rewriteMapRanges(fset *token.FileSet, f *ast.File, info *types.Info) int {
 		if _, isMap := tv.Type.Underlying().(*types.Map); !isMap {
 			return true
 		}
-		if !pure(rs.X) {
-			die("%s: range over a map expression with possible side effects is not supported by the T1 rewrite", fset.Position(rs.Pos()))
-		}
 		id := nextID
 		nextID++
+		// An operand that cannot be evaluated twice (a composite literal, a
+		// call) is evaluated once into a temporary in an enclosing block.
+		mapExpr := rs.X
+		var hoist ast.Stmt
+		if !pure(rs.X) {
+			if _, labelled := c.Parent().(*ast.LabeledStmt); labelled {
+				die("%s: labelled range over a map expression with possible side effects is not supported by the T1 rewrite", fset.Position(rs.Pos()))
+			}
+			tmp := ast.NewIdent(fmt.Sprintf("zzm%d", id))
+			hoist = &ast.AssignStmt{Lhs: []ast.Expr{tmp}, Tok: token.DEFINE, Rhs: []ast.Expr{rs.X}}
+			mapExpr = ast.NewIdent(tmp.Name)
+		}
 		sites = append(sites, site{ID: id, Kind: "maprange", Pos: fset.Position(rs.Pos()).String()})
 		kv := fmt.Sprintf("zzk%d", id)
 		vv := fmt.Sprintf("zzv%d", id)
@@ -258,7 +267,7 @@ func rewriteMapRanges(fset *token.FileSet, f *ast.File, info *types.Info) int {
 			&ast.AssignStmt{
 				Lhs: []ast.Expr{valIdent, ast.NewIdent(ov)},
 				Tok: token.DEFINE,
-				Rhs: []ast.Expr{&ast.IndexExpr{X: rs.X, Index: ast.NewIdent(kv)}},
+				Rhs: []ast.Expr{&ast.IndexExpr{X: mapExpr, Index: ast.NewIdent(kv)}},
 			},
 			&ast.IfStmt{
 				Cond: &ast.UnaryExpr{Op: token.NOT, X: ast.NewIdent(ov)},
@@ -282,13 +291,18 @@ func rewriteMapRanges(fset *token.FileSet, f *ast.File, info *types.Info) int {
 			pre = append(pre, &ast.AssignStmt{Lhs: lhs, Tok: tok, Rhs: rhs})
 		}
 		body := &ast.BlockStmt{List: append(pre, rs.Body.List...)}
-		c.Replace(&ast.RangeStmt{
+		woven := &ast.RangeStmt{
 			Key:   ast.NewIdent("_"),
 			Value: ast.NewIdent(kv),
 			Tok:   token.DEFINE,
-			X:     simrtCall("MapKeys", intLit(id), rs.X),
+			X:     simrtCall("MapKeys", intLit(id), mapExpr),
 			Body:  body,
-		})
+		}
+		if hoist != nil {
+			c.Replace(&ast.BlockStmt{List: []ast.Stmt{hoist, woven}})
+		} else {
+			c.Replace(woven)
+		}
 		n++
 		return true
 	}, nil)
